@@ -31,6 +31,7 @@ Definition show_enum (e : enum_out) : list string :=
     "enum " ++ n ++ " dispatch_generics=" ++ commas (eo_dispatch_generics e);
     "enum " ++ n ++ " table=" ++ commas (eo_table e);
     "enum " ++ n ++ " ctors=" ++ commas (eo_ctors e) ]
+  ++ (if eo_phantom e then ["enum " ++ n ++ " phantom_attrs=serde(skip)"] else [])
   ++ flat_map (show_variant (eo_kind e) n) (eo_variants e).
 
 Definition show_struct (s : struct_out) : list string :=
